@@ -605,6 +605,7 @@ func walkExprs(init ast.Stmt, cond ast.Expr, walk func(ast.Node)) {
 // including one that is loaded anywhere else, stays part of the image.
 func writeCounterFields(dir string, pkgs []*packages.Package, yp map[string]bool) {
 	bad := map[*types.Var]bool{}
+	getters := map[*types.Func][]*types.Var{}
 	used := map[*types.Var]bool{}
 	owner := map[*types.Var]string{}
 	for _, pkg := range pkgs {
@@ -648,8 +649,39 @@ func writeCounterFields(dir string, pkgs []*packages.Package, yp map[string]bool
 					return true
 				}
 				used[v] = true
-				if !counterUse(pkg.TypesInfo, stack) {
+				ok, getter := counterUse(pkg.TypesInfo, stack)
+				if !ok {
 					bad[v] = true
+				} else if getter {
+					// remember the getter: the field only stays a pure counter if library code never calls it
+					for i := len(stack) - 1; i >= 0; i-- {
+						if fd, isFn := stack[i].(*ast.FuncDecl); isFn {
+							if fo, isObj := pkg.TypesInfo.Defs[fd.Name].(*types.Func); isObj {
+								getters[fo] = append(getters[fo], v)
+							}
+							break
+						}
+					}
+				}
+				return true
+			})
+		}
+	}
+	for _, pkg := range pkgs {
+		if len(pkg.Errors) > 0 {
+			continue
+		}
+		for i, file := range pkg.Syntax {
+			if strings.HasSuffix(pkg.CompiledGoFiles[i], "_test.go") {
+				continue
+			}
+			ast.Inspect(file, func(n ast.Node) bool {
+				if id, ok := n.(*ast.Ident); ok {
+					if fo, ok := pkg.TypesInfo.Uses[id].(*types.Func); ok {
+						for _, v := range getters[fo] {
+							bad[v] = true // the library itself reads the counter through its getter
+						}
+					}
 				}
 				return true
 			})
@@ -675,7 +707,7 @@ func writeCounterFields(dir string, pkgs []*packages.Package, yp map[string]bool
 }
 
 // counterUse reports whether the selector on top of the stack is used as a pure counter.
-func counterUse(info *types.Info, stack []ast.Node) bool {
+func counterUse(info *types.Info, stack []ast.Node) (ok, viaGetter bool) {
 	n := len(stack)
 	sel := stack[n-1]
 	parent := func(i int) ast.Node {
@@ -710,33 +742,49 @@ func counterUse(info *types.Info, stack []ast.Node) bool {
 	}
 	switch p := parent(1).(type) {
 	case *ast.IncDecStmt:
-		return p.X == sel
+		return p.X == sel, false
 	case *ast.AssignStmt:
 		if p.Tok == token.ADD_ASSIGN || p.Tok == token.SUB_ASSIGN {
 			for _, l := range p.Lhs {
 				if l == sel {
-					return true
+					return true, false
 				}
 			}
 		}
-		return false
+		return false, false
 	case *ast.UnaryExpr:
 		if p.Op != token.AND {
-			return false
+			return false, false
 		}
 		call, ok := parent(2).(*ast.CallExpr)
 		if !ok || len(call.Args) == 0 || call.Args[0] != ast.Expr(p) {
-			return false
+			return false, false
 		}
 		if isAtomic(call, "Add") {
-			return true
+			return true, false
 		}
 		if isAtomic(call, "Load") {
-			return soleReturn(parent(3), 3) // a getter: `return atomic.LoadInt64(&x.f)`
+			// a getter: `return atomic.LoadInt64(&x.f)`, or a snapshot getter whose single
+			// return statement builds a value out of such loads (`return stats{a: atomic.Load..(&x.a), ...}`)
+			i := 3
+			for {
+				switch q := parent(i).(type) {
+				case *ast.KeyValueExpr, *ast.CompositeLit:
+					i++
+					continue
+				case *ast.UnaryExpr:
+					if q.Op == token.AND {
+						i++
+						continue
+					}
+				}
+				break
+			}
+			return soleReturn(parent(i), i), true
 		}
-		return false
+		return false, false
 	case *ast.ReturnStmt:
-		return soleReturn(p, 1) // a getter: `return x.f`
+		return soleReturn(p, 1), true // a getter: `return x.f`
 	}
-	return false
+	return false, false
 }
